@@ -79,9 +79,9 @@ type PolicyVerdict struct {
 	Malformed []string
 }
 
-// EvalPolicy evaluates every stated expectation. Wrongly sized entries are
-// reported as Malformed and otherwise ignored, so that Misses only holds
-// expectations that are unambiguous.
+// EvalPolicy evaluates every stated expectation. Wrongly sized entries are reported as Malformed; a non-empty wrongly sized
+// exact-match value (or RTMR entry) is also a miss: whatever its bytes, it does not equal a field of another size. An RTMR
+// list of another length than 0 or 4 is only Malformed (which registers it means is anybody's guess).
 func EvalPolicy(q *Quote, p *Policy) *PolicyVerdict {
 	v := &PolicyVerdict{WellFormed: true}
 	miss := func(f string, a ...any) { v.Misses = append(v.Misses, fmt.Sprintf(f, a...)) }
@@ -94,6 +94,7 @@ func EvalPolicy(q *Quote, p *Policy) *PolicyVerdict {
 		case len(f.Want) == 0:
 		case len(f.Want) != f.Size:
 			bad("%s has %d bytes, want %d", f.Name, len(f.Want), f.Size)
+			miss("%s: the configured value has %d bytes and so does not equal the quote's %d-byte field", f.Name, len(f.Want), f.Size)
 		case !bytes.Equal(f.Want, f.Got):
 			miss("%s differs", f.Name)
 		}
@@ -108,25 +109,25 @@ func EvalPolicy(q *Quote, p *Policy) *PolicyVerdict {
 			case len(want) == 0:
 			case len(want) != 48:
 				bad("rtmrs[%d] has %d bytes", i, len(want))
+				miss("rtmr %d: the configured value has %d bytes and so does not equal the quote's register", i, len(want))
 			case !bytes.Equal(want, q.Rtmrs[i]):
 				miss("rtmr %d differs", i)
 			}
 		}
 	}
 	if len(p.AnyMrTd) > 0 {
-		member, sized := false, true
+		member := false
 		for i, a := range p.AnyMrTd {
 			switch {
 			case len(a) == 0:
 				v.Vague = true
 			case len(a) != 48:
-				bad("any_mr_td[%d] has %d bytes", i, len(a))
-				sized = false
+				bad("any_mr_td[%d] has %d bytes", i, len(a)) // such an entry can never be the quote's MR_TD
 			case bytes.Equal(a, q.MrTd):
 				member = true
 			}
 		}
-		if !member && !v.Vague && sized {
+		if !member && !v.Vague {
 			miss("mr_td is not in the allowed set")
 		}
 	}
